@@ -114,6 +114,7 @@ func runCheck(prop, tier string, seed int) int {
 	}
 	var all []*Obligation
 	var results []*FuncResult
+	skippedSlow := 0
 	notes := map[string]bool{}
 	var engineErrs []string
 	for _, k := range keys {
@@ -130,6 +131,10 @@ func runCheck(prop, tier string, seed int) int {
 			notes[n] = true
 		}
 		for _, o := range r.Obls {
+			if o.Slow && tier != "thorough" {
+				skippedSlow++
+				continue
+			}
 			if len(o.Props) == 0 || hasTag(o.Props, prop) || o.IsCanary {
 				all = append(all, o)
 			}
@@ -205,7 +210,7 @@ func runCheck(prop, tier string, seed int) int {
 		fmt.Printf("VIOLATION property=%s replay=%s%s\n", prop, path, suffix)
 		fmt.Printf("  obligation %s (%s) %s: %s\n  %s\n", o.Name, o.Res.Answer, o.Src, o.Text, detail)
 	}
-	stats := map[string]any{"by_solver": bySolver, "solver_time_s": round2(solverSecs), "max_obligation_s": round2(maxSecs), "known_findings": knownHit}
+	stats := map[string]any{"slow_obligations_left_to_thorough_tier": skippedSlow, "by_solver": bySolver, "solver_time_s": round2(solverSecs), "max_obligation_s": round2(maxSecs), "known_findings": knownHit}
 	writeEvidence(prop, tier, seed, all, keys, notes, violations, stats, time.Since(t0), "")
 	fmt.Printf("property %s: %d functions under contract, %d obligations, %d discharged, %d known findings, %d violations, %.1fs\n",
 		prop, len(keys), counted, discharged, len(knownHit), violations, time.Since(t0).Seconds())
